@@ -79,7 +79,7 @@ fn populate(s: &Server, dir: &Path) -> Universe {
     let mut i = Inst::over_http(dir, &s.addr, vec![]);
     i.call("brc20_mine", json!({"block_count": 2, "timestamp": 5}));
     let pk = "5120c2c2c2c2c2c2c2c2c2c2c2c2c2c2c2c2c2c2c2c2c2c2c2c2c2c2c2c2c2c2c2c2";
-    let h = format!("0x{:064x}", 0xc20u64);
+    let h = crate::hist::bh((0xc20u64) as u64);
     let r = i.call("brc20_deploy", json!({"from_pkscript": pk, "data": hist::hx(&asm::tool_init_with_ctor()), "timestamp": 6, "hash": h, "tx_idx": 0, "inscription_id": "c20-tool", "inscription_byte_len": 100000, "op_return_tx_id": hist::ZERO_HASH}));
     i.call("brc20_finaliseBlock", json!({"timestamp": 6, "hash": h, "block_tx_count": 1}));
     i.call("brc20_commitToDatabase", json!([]));
